@@ -353,3 +353,60 @@ C06_CONCAT = dict(
 ALL = [C16_FILTER, C17_SAMPLE,
        C10_INIT, C10_N_THETAS, C10_GET, C10_ADD, C10_IS_COMPLETE, C10_COMBINE, C10_CONCAT, C10_LOAD, C10_SAVE,
        C06_SELECT, C06_SCORE_CHUNK, C16_SELECT, C06_ADD_SCORE, C06_COMBINE, C06_MIN_SCORE, C06_CONCAT]
+
+# ---- C12 / C03: the reveal lifecycle (vocabulary: end of Model/Reveal.v) ----
+# A Screen object is Screen.screen; its array attributes are the columns of its rows (one entry per experiment).
+# Trusted per entry: one attribute read / one numpy call each.
+_SCREEN_ATTRS = [
+    ("screen.treatment_names", "col_tnames screen'", "names2d"),
+    ("screen.treatment_doses", "col_tdoses screen'", "doses2d"),
+    ("screen.observations", "col_obs screen'", "list Z"),                # float64 bit patterns
+    ("screen.sample_names", "col_samples screen'", "list name"),
+    ("screen.plate_names", "col_plates screen'", "list name"),
+    ("screen.control_treatment_name", "s_ctrl screen'", "name"),
+    ("screen.observation_mask", "col_mask screen'", "list bool"),
+    ("screen.treatment_mapping", "attr_tmap screen'", "tmap_t"),        # (mapping, its id array has an integer dtype = true)
+    ("screen.sample_mapping", "attr_smap screen'", "smap_t"),
+    ("screen.plate_ids", "s_pids screen'", "list Z"),
+    ("screen.size", "screen_size screen'", "Z"),
+]
+_NUMPY = [
+    ("np.isin(__a, __l)", "np_isin {a} {l}", "list bool", {"a": "list Z", "l": "list Z"}),
+    ("__a[__m]", "select {m} {a}", "list Z", {"a": "list Z", "m": "list bool"}),          # boolean-mask indexing
+    ("__x == 0", "np_eq_zero {x}", "list bool", {"x": "list Z"}),                           # elementwise, on floats
+    ("np.isnan(__x)", "np_isnan {x}", "list bool", {"x": "list Z"}),
+    ("np.all(__b)", "np_all {b}", "bool", {"b": "list bool"}),
+    ("np.any(__b)", "np_any {b}", "bool", {"b": "list bool"}),
+    ("__a | __b", "np_or {a} {b}", "list bool", {"a": "list bool", "b": "list bool"}),
+    ("np.zeros(__n, dtype=bool)", "np_full false {n}", "list bool", {"n": "Z"}),
+    ("np.ones(__n, dtype=bool)", "np_full true {n}", "list bool", {"n": "Z"}),
+]
+# Screen(...): the model's constructor applied to the keyword arguments THE CALL SITE passes (py2gal kwcalls); a parameter
+# that is not passed takes the default of Screen.__init__'s signature (None; control_treatment_name: "")
+_SCREEN_CALL = {"Screen": (
+    "!py_screen {treatment_names} {treatment_doses} {sample_names} {plate_names} {observations} {observation_mask} "
+    "{control_treatment_name} {treatment_mapping} {sample_mapping}", "screen",
+    [("treatment_names", "names2d", None), ("treatment_doses", "doses2d", None),
+     ("sample_names", "list name", None), ("plate_names", "list name", None),
+     ("observations", "opt list Z", "None"), ("observation_mask", "opt list bool", "None"),
+     ("control_treatment_name", "opt name", "None"),
+     ("treatment_mapping", "opt tmap_t", "None"), ("sample_mapping", "opt smap_t", "None")])}
+_C12 = dict(file="src/batchie/retrospective.py", out="SrcReveal.v", imports="Model.Encode Model.Screen Model.Reveal",
+            prims=_SCREEN_ATTRS + _NUMPY, kwcalls=_SCREEN_CALL)
+
+C12_REVEAL = dict(
+    _C12, func="reveal_plates", name="src_reveal_plates", pyparams=["screen", "plate_ids"],
+    params=[("screen", "screen"), ("plate_ids", "list Z")], returns="screen",
+    vars={"reveal_mask": "list bool", "revealed_values": "list Z"},
+    raises=[("All revealed observations were 0", 8), ("NaN found in revealed observations", 9)],
+)
+C12_MASK = dict(
+    _C12, func="mask_screen", name="src_mask_screen", pyparams=["screen"],
+    params=[("screen", "screen")], returns="screen", vars={},
+)
+C12_UNMASK = dict(
+    _C12, func="unmask_screen", name="src_unmask_screen", pyparams=["screen"],
+    params=[("screen", "screen")], returns="screen", vars={},
+)
+
+ALL += [C12_REVEAL, C12_MASK, C12_UNMASK]
